@@ -7,7 +7,72 @@ HERE = os.path.dirname(os.path.dirname(os.path.abspath(__file__)))
 
 E1 = "bounded-exhaustive enumeration of an explicit finite input space against a reference model (no sampling)"
 
+RT_NOTE = ("Trusted: CPython (ast, compile, inspect, argparse), black. Bounded by the alphabets of DESIGN.md section 4 "
+           "(<=3 parameters quick / thorough, 17 types, 9 prose forms incl. a 150-character one, the listed defaults); "
+           "oracles are acceptance sets fixed in mc/refmodel.py. Known genuine defects are matched by exact "
+           "(site facts, observation) hash, see known_findings.json.")
+
+
+def rt(design, what, space, extra=""):
+    return dict(level="exploration", engine="E1", design=design,
+                technique="bounded-exhaustive input-space enumeration against an independent reference model",
+                text="Every interface description of the bounded space (%s) is pushed through the real doctrans functions "
+                     "(%s) for every listed option combination and compared field by field with the reference projection "
+                     "of the input; the space is enumerated completely (sharded by index over 16 workers), so within the "
+                     "bounds no input is left unvisited.%s" % (space, what, extra),
+                note=RT_NOTE)
+
+
+SPACE = "S_A: all <=1-parameter IRs over the full atom alphabet x 7 return entries x kwargs x 3 summaries; S_B: all parameter sequences of length 2..3 over 13 representative atoms x 3 returns x kwargs"
+
 CHECKS = {
+    "C01": rt("5/C01", "emit.docstring -> parse.docstring, with a spy on the style the parser chose", SPACE),
+    "C02": rt("5/C02", "emit.class_ -> to_code -> ast.parse -> parse.class_", SPACE),
+    "C03": rt("5/C03", "emit.function -> to_code -> ast.parse -> parse.function", SPACE,
+              " Options: function type x inline types x keyword-only x docstring indent."),
+    "C04": rt("5/C04", "emit.argparse_function -> to_code -> ast.parse -> parse.argparse_ast", SPACE + " (argparse-expressible part)"),
+    "C05": dict(level="model_checking", engine="E2", design="5/C05",
+                technique="explicit-state exploration of the conversion graph on the implementation (all chains of distinct kinds up to depth 3 / 4)",
+                text="For every IR of S_C (parameter sequences of length 0..2 over 13 atoms x 3 returns x kwargs) and each of the 7 "
+                     "start kinds, every chain of distinct kinds up to length 3 (thorough: 4) is executed on the real "
+                     "emit/parse functions with conversions memoised per (kind, text, target); each path node - a state "
+                     "(kind, text) - is parsed and compared with the original description under the normalisations "
+                     "accumulated along the chain. All 42 ordered pairs and 210 length-3 chains are covered for every IR.",
+                note=RT_NOTE + " There is no separate model: every transition is an execution of the implementation."),
+    "C06": rt("5/C06", "emit.class_ / emit.function / emit.argparse_function, then compile, unparse/re-parse, emit.file with and "
+                       "without black, exec, inspect.signature, class __dict__/__annotations__, a real ArgumentParser", SPACE,
+              " The oracle is the Python interpreter, never doctrans' own parsers."),
+    "C07": dict(level="exploration", engine="E1", design="5/C07",
+                technique="bounded-exhaustive enumeration of generated definitions judged by inspect.signature, plus a hash-seed sweep in fresh interpreters",
+                text="Every definition of the generated family (signature shapes with <=3 positional, <=2 keyword-only parameters and "
+                     "**kwargs, total <=3 quick / <=4 thorough; annotations all / none / alternating; a docstring per style that "
+                     "documents every subset of the parameters in signature or reversed order, optionally stating defaults that "
+                     "conflict with the signature; as function, self method, cls method and class + __init__) is parsed by "
+                     "doctrans and compared with inspect.signature of the exec'ed definition. The partially documented ones are "
+                     "re-parsed in fresh interpreters under further PYTHONHASHSEED values and must give the same order.",
+                note="Trusted: CPython exec / inspect. Bounded by the generator (names a,b,c,k1,k2,kwargs; fixed annotation and default "
+                     "values per name)."),
+    "C08": rt("5/C08", "emit, then (parse, emit) repeatedly for each of the 7 kinds", SPACE,
+              " Obligation: the texts of pass 2 and pass 3 (thorough: up to pass 5) are byte-identical."),
+    "C12": dict(level="exploration", engine="E5", design="5/C12",
+                technique="configuration sweep over hash seeds chosen to cover all k! set-iteration orders, plus exhaustive call-sequence enumeration in forked pristine processes",
+                text="(a) a battery of ~40 conversions (partially documented functions with 2..4 undocumented parameters, class + "
+                     "__init__ merges, every emitter and parser, gen) runs in one fresh interpreter per PYTHONHASHSEED; seeds are "
+                     "added until every permutation of the relevant name-set iteration order has been witnessed (k<=3 quick, k<=4 "
+                     "thorough; >=64 / >=256 seeds) plus random seeds; all digests must equal seed 0's. (b) every sequence with "
+                     "repetition over 9 conversions up to length 3 (thorough 4) runs in a child forked from a pristine post-import "
+                     "process and each call's output must equal its solo output.",
+                note="The 2^32 seeds are covered through the iteration orders they induce (the only channel by which the seed can "
+                     "reach doctrans); call histories are depth-bounded because process state cannot be canonicalised soundly."),
+    "C13": dict(level="model_checking", engine="E2", design="5/C13",
+                technique="explicit-state BFS to closure over the states of one shared IR / AST object under every emit and parse call",
+                text="Starting from each initial object (IRs with and without return entry, carried body, defaults, kwargs; ASTs "
+                     "of a function, a method, classes and an argparse function) the state graph of the shared object under "
+                     "all emit / parse calls is explored breadth-first to closure; every transition runs the real call on a "
+                     "deep copy of the state and its output must equal that of the same call on a fresh initial object. "
+                     "Closure makes the verdict hold for call sequences of any length, not only the <=4 the property asks for.",
+                note="Trusted: copy.deepcopy, the canonical serialisation (parameter dicts, return entry, body statements via "
+                     "ast.dump, ancestry attributes). No separate model: transitions are implementation executions."),
     "C17": dict(level="exploration", engine="E1", design="5/C17",
                 technique="bounded-exhaustive input-space enumeration (every prose x value x type x phrase x removal tuple)",
                 text="Every tuple of the stated prose/value/type/phrase/removal alphabets is pushed through the real "
@@ -17,6 +82,14 @@ CHECKS = {
                 note="Trusted: CPython ast/str semantics. Domain restrictions for bare (unquoted) strings are listed in "
                      "the evidence assumptions. Bounded by the alphabets (thorough: all ints in [-20,20], a float grid, "
                      "all strings of length <=3 over 8 characters)."),
+    "C18": dict(level="exploration", engine="E5", design="5/C18",
+                technique="configuration sweep: one fresh interpreter per DOCTRANS_LINE_LENGTH value x exhaustive width-relative and absolute-length inputs",
+                text="For every width of the sweep (quick: unset + 7 values; thorough: unset + every integer 40..200) a fresh "
+                     "interpreter emits 81 interface descriptions - summaries, prose, types and return prose of length L-1, L, L+1, "
+                     "2L+3, 5L, plus texts of 41 absolute lengths (with a trailing default sentence, with dashes) so that sweeping "
+                     "L moves the line break across every position - with each of 7 emitter kinds, word_wrap on and off, parses "
+                     "both artefacts and compares the projections field by field.",
+                note="Trusted: textwrap. Types are compared with whitespace removed, prose modulo runs of whitespace."),
 }
 
 PENDING = {}
